@@ -257,9 +257,9 @@ func cmdSweep(args []string) int {
 	}
 	sort.Strings(lf.Closed)
 	sort.Strings(open)
+	os.MkdirAll(filepath.Join(out, "ledger"), 0o755)
 	os.WriteFile(filepath.Join(out, "ledger", prop+".open.txt"), []byte(strings.Join(open, "\n")+"\n"), 0o644)
 	sort.Slice(lf.Sites, func(i, j int) bool { return lf.Sites[i].key() < lf.Sites[j].key() })
-	os.MkdirAll(filepath.Join(out, "ledger"), 0o755)
 	b, _ := json.MarshalIndent(lf, "", " ")
 	os.WriteFile(ledgerPath(out, prop), append(b, '\n'), 0o644)
 	fmt.Printf("sweep %s: %d of %d sites proved panic-free and written to %s (%.0fs)\n", prop, proved, len(results), ledgerPath(out, prop), time.Since(r.Start).Seconds())
